@@ -61,7 +61,8 @@ Definition peq_arm_unit (v : string) : pat * expr :=
    EBlock [EIfLet (PPath (RSelfV v)) (EVar "other") [] else_false]).
 
 Definition eq_sig : toks :=
-  [G Paren [P "&"; I "self"; P ","; I "other"; P ":"; P "&"; I "Self"]; P "->"; I "bool"].
+  [G Paren [P "&"; I "self"; P ","; I "other"; P ":"; P "&"; I "Self"]; P "->";
+   P "::"; I "core"; P "::"; I "primitive"; P "::"; I "bool"].
 
 Definition peq_items (traits : list trait) (F : features) (d : dinput) (g : generics)
            (body : block) : list item :=
@@ -91,7 +92,7 @@ Definition peq_variant F traits (v : variant) : outcome ((pat * expr) * list tok
 Definition peq_union_body : block :=
   let raw (x : string) :=
     EUnsafe [ECall (EPath (RCore ["slice"; "from_raw_parts"]))
-               [ECast (ECast (EVar x) [P "*"; I "const"; I "Self"]) [P "*"; I "const"; I "u8"];
+               [ECast (ECast (EVar x) [P "*"; I "const"; I "Self"]) const_u8_ty;
                 EVar "size"]] in
   [ELet false "size" (ECall (EToks (core_path ["mem"; "size_of"] ++ [P "::"; P "<"; I "Self"; P ">"])) []);
    ELet false "self_data" (raw "self");
